@@ -167,6 +167,15 @@ def poisons():
     ordered("container", "c-rename_all-sandwich", lambda it: [("rename_all", "camelCase"), ("validate", 950), ("rename_all", "lowercase")], pick_item,
             lambda it: not it.get("rename_all"))
     ordered("container", "c-deny-sandwich", lambda it: [("deny", None), ("error", 0), ("deny", None)], pick_item, lambda it: not (it.get("deny") or it.get("error")))
+    # the valued form `deny_unknown_fields = f` next to the bare flag, twice, around another attribute, and with try_from
+    nodeny = lambda it: not (it.get("deny") or it.get("error"))
+    ordered("container", "c-deny-valued-then-bare", lambda it: [("deny", 970), ("deny", None)], pick_item, nodeny)
+    ordered("container", "c-deny-bare-then-valued", lambda it: [("deny", None), ("deny", 971)], pick_item, nodeny)
+    ordered("container", "c-deny-valued-twice", lambda it: [("deny", 972), ("deny", 973)], pick_item, nodeny)
+    ordered("container", "c-deny-valued-sandwich", lambda it: [("deny", 974), ("error", 0), ("deny", 975)], pick_item, nodeny)
+    plain_c = lambda it: not (it.get("rename_all") or it.get("tag") or it.get("deny"))
+    ordered("container", "c-try_from-with-deny-valued", lambda it: [("try_from", T.String, 976, False), ("deny", 977)], pick_item, plain_c)
+    ordered("container", "c-deny-valued-with-try_from", lambda it: [("deny", 978), ("try_from", T.String, 979, False)], pick_item, plain_c)
     ordered("container", "c-validate-sandwich", lambda it: [("validate", 951), ("deny", None), ("validate", 952)], pick_item, lambda it: not it.get("deny"))
     ordered("container", "c-tag-sandwich", lambda it: [("tag", "t1"), ("validate", 953), ("tag", "t2")], pick_item, lambda it: it.kind == "enum" and not it.get("tag"))
     ordered("variant", "v-rename_all-sandwich", lambda v: [("rename_all", "camelCase"), ("rename", "sw1"), ("rename_all", "lowercase")], pick_variant,
